@@ -58,7 +58,7 @@ def add_scaling(rng, spec, ctype, p=1.0):
     """Adds NI_Scale properties to a stub spec (in place) and makes the raw data of scaled channels small."""
     names = spec['names']
     chans = [q for q in ctype if q in names]
-    scaled = set()
+    scaled = {}       # insertion-ordered: iteration order must not depend on string hashing
     for path in chans:
         if ctype[path] not in scalemodel.SCALABLE or rng.random() >= p:
             continue
@@ -84,7 +84,8 @@ def add_scaling(rng, spec, ctype, p=1.0):
         scales = scalemodel.gen_scales(rng)
         L['props'] = [pr for pr in L['props'] if not pr[0].startswith('NI_')] + scalemodel.scale_props(
             scales, with_count=rng.random() < 0.6, status=rng.choice([None, 'unscaled']))
-        scaled.update(under)
+        for q in under:
+            scaled[q] = True
         if level != path and rng.random() < 0.3:
             # the channel itself claims to be already scaled: the next level in scope applies
             Lc = _first_listing(spec, path)
